@@ -472,6 +472,28 @@ pub fn parse_line(line: &str) -> LineInfo {
     LineInfo { tokens: result, is_complete: is_line_complete }
 }
 
+/// Split a word that carries several redirections (`>a>b`, `2>e>o`,
+/// `2>&1>c`) into one piece per redirection operator.
+fn split_redirection_word(word: &str) -> Vec<String> {
+    let mut pieces = Vec::new();
+    let mut piece = String::new();
+    let mut seen_op = false;
+    let mut prev = '\0';
+    for c in word.chars() {
+        if c == '>' && prev != '>' {
+            if seen_op {
+                pieces.push(piece);
+                piece = String::new();
+            }
+            seen_op = true;
+        }
+        piece.push(c);
+        prev = c;
+    }
+    pieces.push(piece);
+    pieces
+}
+
 pub fn tokens_to_redirections(tokens: &Tokens) -> Result<(Tokens, Vec<Redirection>), String> {
     let mut tokens_new = Vec::new();
     let mut redirects = Vec::new();
@@ -479,7 +501,18 @@ pub fn tokens_to_redirections(tokens: &Tokens) -> Result<(Tokens, Vec<Redirectio
     let mut to_be_continued_s1 = String::new();
     let mut to_be_continued_s2 = String::new();
 
+    let mut tokens_split = Vec::new();
     for token in tokens {
+        if token.0.is_empty() && token.1.contains('>') {
+            for piece in split_redirection_word(&token.1) {
+                tokens_split.push((String::new(), piece));
+            }
+        } else {
+            tokens_split.push(token.clone());
+        }
+    }
+
+    for token in &tokens_split {
         let sep = &token.0;
         if !sep.is_empty() && !to_be_continued {
             tokens_new.push(token.clone());
@@ -559,6 +592,8 @@ pub fn tokens_to_redirections(tokens: &Tokens) -> Result<(Tokens, Vec<Redirectio
                 to_be_continued_s1 = s1.to_string();
                 to_be_continued_s2 = s2.to_string();
             }
+        } else {
+            return Err(String::from("redirection syntax error"));
         }
     }
 
